@@ -42,6 +42,11 @@ def read_monitor(ctx, outdir, mode):
                     if m["signature"] not in [x["signature"] for x in ctx.known]:
                         ctx.known.append({"signature": m["signature"], "what": "(pending triage) " + PENDING_FINDINGS[m["signature"]],
                                           "replay": m["replay"]})
+                        ctx.cov.setdefault("pending_findings", []).append(
+                            {"signature": m["signature"], "what": PENDING_FINDINGS[m["signature"]], "first_replay": m["replay"], "seen": m["what"]})
+                        # vlib prints KNOWN-FINDING only for entries of known_findings.json; a pending one must not pass silently
+                        print(f"PENDING-FINDING: property={ctx.prop} [{m['signature']}] {PENDING_FINDINGS[m['signature']]} "
+                              f"(reproduced in this run: {m['what']})", flush=True)
                     n += 1
                     continue
                 ctx.add_violation(m["what"], m["signature"], m["replay"])
@@ -64,7 +69,7 @@ def run(ctx):
     ctx.audit("Slock.Properties.C20", THEOREMS)
     if ctx.tier == "thorough":
         ctx.leanchecker("Slock.Properties.C20")
-    n = 150 if ctx.tier == "quick" else 4000
+    n = 3000 if ctx.tier == "quick" else 40000
     exe = ctx.build_harness("server")
     if exe:
         outdir = ctx.run_harness(exe, "queue", n)
